@@ -4,7 +4,9 @@
 (* address asc) of votes [val, flag, shape, power]; flag in commit / absent /   *)
 (* nil; shape names what the validator's (signed) vote extension carries:       *)
 (*   empty garbage trunc            not JSON                                    *)
-(*   jsonempty                      JSON without any field                      *)
+(*   jsonempty                      JSON object with every field zero           *)
+(*   jsonbare                       the JSON object {} (every key omitted)      *)
+(*   valsetonly attonly             like valset / att1, all other keys omitted  *)
 (*   initgood init65 all            both initial signatures by the validator's  *)
 (*                                  own EVM key (init65: 65-byte signatures)    *)
 (*   initshort initshortb           one initial signature shorter than 64 bytes *)
@@ -15,11 +17,11 @@
 EXTENDS Integers, Sequences, FiniteSets
 
 InitGood == {"initgood", "init65", "all"}
-ValsetShapes == {"valset", "valsetwrongts", "all"}
-AttsOf(shape) == IF shape = "att1" THEN <<"s1">> ELSE IF shape = "att2dup" THEN <<"s1", "s1">>
+ValsetShapes == {"valset", "valsetwrongts", "valsetonly", "all"}
+AttsOf(shape) == IF shape \in {"att1", "attonly"} THEN <<"s1">> ELSE IF shape = "att2dup" THEN <<"s1", "s1">>
                  ELSE IF shape = "attforeign" THEN <<"foreign">> ELSE IF shape = "all" THEN <<"s2", "s1">> ELSE <<>>
 \* snapshots for which the extension carries a NON-EMPTY attestation signature (an empty one leaves the slot empty)
-FillsOf(shape) == IF shape = "att1" THEN {"s1"} ELSE IF shape = "att2dup" THEN {"s1"} ELSE IF shape = "all" THEN {"s2"} ELSE {}
+FillsOf(shape) == IF shape \in {"att1", "attonly"} THEN {"s1"} ELSE IF shape = "att2dup" THEN {"s1"} ELSE IF shape = "all" THEN {"s2"} ELSE {}
 Committed(c) == { i \in DOMAIN c : c[i].flag = "commit" }
 RECURSIVE SelectIdx(_, _, _)
 SelectIdx(c, P(_), i) == IF i > Len(c) THEN <<>> ELSE (IF P(c[i]) THEN <<i>> ELSE <<>>) \o SelectIdx(c, P, i + 1)
